@@ -60,6 +60,12 @@ claimed = {
  "C13": ("model_checking", "exhaustive enumeration of ring configurations x application appetites x TTR x poll patterns (thorough: plus every placement of one poll stall) with a trace oracle for hold time and rotation",
    "Rings of 2-4 real stations with applications that never / always / every third opportunity send SDN or SRD telegrams to passive responders answering after 11 bit, after Tslot-33 bit or never, for TTR in {256, 2000, default} and three poll patterns; on the trace: at most one application request starts after previous-receipt + TTR (+poll slack), consecutive token receipts are at most TTR + N*(cycle + GAP poll + pass) apart, every application is asked at least once per visit.",
    "Only evaluated once the ring is stable; configurations outside the latency envelope of DESIGN 5.5 are skipped.", "6 C13"),
+ "C12": ("model_checking", "explicit-state BFS of a real FdlActiveStation against a reactive ring environment (GAP part) and an adversarial listener alphabet (reply part), each with a monitor automaton",
+   "(1) For all (TS,HSA) with HSA 2..7 (thorough ..10, and 126), gap factors and initial ring-member sets of <=2, the environment plays the other ring members and answers every GAP poll of the real station with silence / not ready / ready / in ring / slave (BFS over the answers, bounded number of joins); the monitor checks every FDL status request against the reference GAP (never TS, never at or beyond NS), one poll per visit, complete post-claim scan, sweep order, pause of G..G+2 visits, bounded staleness, and that a ready responder gets the next token. (2) BFS over tokens of consistent and inconsistent rotations and status requests from predecessor / others: replies only to requests addressed to TS, within the slot time, 'not ready' until two identical rotations (repeated passes collapsed), 'ready' only to the registered predecessor, 'in ring' iff in the ring.",
+   "The environment is conforming in part (2) (requesters leave the reply slot free); join budget 1/2 per path.", "6 C12"),
+ "C15": ("model_checking", "explicit-state BFS of a real FdlActiveStation with scripted probe applications against a reactive environment choosing the peer's behaviour for every request",
+   "All scripts up to length 2/3 over {decline, SRD, SDN, FDL status} for 1 application, all script pairs up to length 2 for 2, all triples of length <=1 for 3 applications (and poll_multi with none), in rings of 1..3 stations; for every request the environment answers correctly, with SC, late, from a foreign source, to a foreign destination, with a request, with a token, or not at all. The oracle reads the call log of the applications and the bus trace: asked only while holding the token and with no reply outstanding, at most one reply/time-out per request on the sending application with the addressed station, exactly one for correct/silent peers (while no stray telegram is around), replies are SC or responses SA=addressed DA=TS, round-robin order, nobody asked after all declined.",
+   "Call order across applications is reconstructed with a per-thread sequence counter in the probe applications.", "6 C15"),
 }
 not_applicable_reasons = {}
 
